@@ -55,9 +55,25 @@ func generate(c *ctx) {
 		it('o', "a", 5) + ";" + it('v', "b", 5), it('d', "d", 0) + "," + it('o', "d/p", 40000),
 	} {
 		c.runOp("H " + o + " s")
-		c.runOp("H " + o + " r")
+		// the cut lands in the gzip header / the first tar header (error from tr.Next) / a file body (error from io.Copy)
+		for _, pct := range []int{2, 5, 30, 60} {
+			c.runOp(fmt.Sprintf("H %s r%d", o, pct))
+		}
 		c.runOp("C n 1 " + o)
 		c.runOp("C a 1 " + o)
+	}
+	// 3b. the store command fails by itself: after nothing, inside the first header, at entry boundaries, inside a body
+	for _, o := range []string{
+		it('o', "a", 5) + ";" + it('o', "b", 5) + ";" + it('o', "c", 5),
+		it('o', "a", 3000) + ";" + it('o', "b", 3000),
+		it('d', "d", 0) + "," + it('o', "d/p", 600) + "," + it('o', "d/q", 600),
+	} {
+		for _, k := range []int{0, 100, 512, 1024, 1536, 2048, 4096, 4608, 100000} {
+			c.runOp(fmt.Sprintf("C nf%d 0 %s", k, o))
+			if k == 0 || k == 1024 || k == 100000 {
+				c.runOp(fmt.Sprintf("C af%d 0 %s", k, o))
+			}
+		}
 	}
 	// 4. random: more outputs, mixed sizes and kinds
 	for i := 0; i < r.N(30, 600); i++ {
@@ -78,9 +94,9 @@ func generate(c *ctx) {
 		o := strings.Join(outs, ";")
 		switch r.Rng.Intn(4) {
 		case 0:
-			c.runOp("H " + o + " " + lib.Pick(r.Rng, []string{"-", "-", "s", "r"}))
+			c.runOp("H " + o + " " + lib.Pick(r.Rng, []string{"-", "-", "s", "r3", "r20", "r45", "r70"}))
 		case 1:
-			c.runOp("C n " + lib.Pick(r.Rng, []string{"0", "0", "1"}) + " " + o)
+			c.runOp("C " + lib.Pick(r.Rng, []string{"n", "n", "n", "nf512", "nf1024", "nf3000"}) + " " + lib.Pick(r.Rng, []string{"0", "0", "1"}) + " " + o)
 		case 2:
 			c.runOp("C a " + lib.Pick(r.Rng, []string{"0", "0", "1"}) + " " + o)
 		default:
@@ -88,7 +104,7 @@ func generate(c *ctx) {
 		}
 	}
 	// malformed
-	for _, l := range []string{"", "H", "H - -", "H o:61:1 x", "H q:61:1 -", "H o:6:1 -", "C x 0 o:61:1", "C n 2 o:61:1", "H d:61:5 -", "H o:61:1;; -", "H d:64:0,v:642f71:3 -"} {
+	for _, l := range []string{"", "H", "H - -", "H o:61:1 x", "H o:61:1 r0", "H o:61:1 r76", "H o:61:1 r", "C nfx 0 o:61:1", "H q:61:1 -", "H o:6:1 -", "C x 0 o:61:1", "C n 2 o:61:1", "H d:61:5 -", "H o:61:1;; -", "H d:64:0,v:642f71:3 -"} {
 		c.runOp(l)
 	}
 }
